@@ -434,6 +434,10 @@ def t_label_unique(facts, res, tier):
                     if is_fmt_let(s):
                         a = s["init"]["args"]
                         tmpl = a[0]["v"]
+                        if str(tmpl).startswith(".") and len(a) >= 2 and "self." in expr_text(a[1]) and not re.match(r"^self\.\w+$", expr_text(a[1]).replace(" ", "")):
+                            key = "T-LABEL-UNIQUE:%s:%s:computed-number" % (fn["name"], re.sub(r"\{.*\}", "", str(tmpl)))
+                            res.inst(key, True, {"label": tmpl, "number": expr_text(a[1])[:40]})
+                            res.fail(key, facts.where(fn, s), "%s numbers the label `%s` with `%s`, not with the counter itself: the number is used without being taken (the counter may not be advanced on this path), and the next label of the family gets it again" % (fn["name"], tmpl, expr_text(a[1])[:40]))
                         if str(tmpl).startswith(".") and len(a) >= 2 and expr_text(a[1]).startswith("self."):
                             ctr = expr_text(a[1])
                             fam = re.sub(r"\{.*\}", "", tmpl)
